@@ -23,6 +23,9 @@ pub enum Compressor {
     },
     /// the harness's own parametric encoder
     Lz77(crate::lz77::Lz77Params),
+    /// zlib with Z_SYNC_FLUSH after every `interval` input bytes for the first `flushed` bytes
+    /// (interactive protocols: many tiny and empty blocks, corrections larger than the text)
+    ZlibFlushy { level: i32, interval: usize, flushed: usize },
 }
 
 impl Compressor {
@@ -38,12 +41,20 @@ impl Compressor {
             Compressor::Libdeflate { level } => format!("libdeflate(l={})", level),
             Compressor::Miniz { level } => format!("miniz_oxide(l={})", level),
             Compressor::Lz77(p) => p.describe(),
+            Compressor::ZlibFlushy { level, interval, flushed } => format!("zlib-sync-flush(l={},every={},first={})", level, interval, flushed),
         }
     }
 
     pub fn random(rng: &mut Rng) -> Compressor {
         if rng.chance(1, 8) {
             return Compressor::Lz77(crate::lz77::Lz77Params::random(rng));
+        }
+        if rng.chance(1, 16) {
+            return Compressor::ZlibFlushy {
+                level: rng.range(1, 9) as i32,
+                interval: rng.range(1, 8) as usize,
+                flushed: *rng.pick(&[64usize, 400, 1500, 100000]),
+            };
         }
         match rng.below(10) {
             0..=4 => {
@@ -91,6 +102,7 @@ impl Compressor {
             Compressor::Libdeflate { level } => libdeflate_raw(plain, *level),
             Compressor::Miniz { level } => miniz_oxide::deflate::compress_to_vec(plain, *level),
             Compressor::Lz77(p) => crate::lz77::encode(plain, p),
+            Compressor::ZlibFlushy { level, interval, flushed } => zlib_flushy(plain, *level, *interval, *flushed),
         }
     }
 }
@@ -498,22 +510,41 @@ pub fn wrap(rng: &mut Rng, w: &Wrapper, raw: &[u8], plain: &[u8]) -> Vec<u8> {
             out.extend_from_slice(&(plain.len() as u32).to_le_bytes());
         }
         Wrapper::Zip(name_len, extra_len) => {
+            // size fields: real sizes, or the Zip64 sentinel 0xFFFFFFFF with the sizes in a 0x0001
+            // extra field, or zero with the data-descriptor flag (sizes follow the data)
+            let variant = rng.below(6);
+            let zip64 = variant == 0;
+            let descriptor = variant == 1;
             out.extend_from_slice(&0x04034b50u32.to_le_bytes());
-            out.extend_from_slice(&20u16.to_le_bytes()); // version needed
-            out.extend_from_slice(&0u16.to_le_bytes()); // flags
+            out.extend_from_slice(&(if zip64 { 45u16 } else { 20u16 }).to_le_bytes()); // version needed
+            out.extend_from_slice(&(if descriptor { 8u16 } else { 0u16 }).to_le_bytes()); // flags
             out.extend_from_slice(&8u16.to_le_bytes()); // method deflate
             out.extend_from_slice(&(rng.below(65536) as u16).to_le_bytes()); // time
             out.extend_from_slice(&(rng.below(65536) as u16).to_le_bytes()); // date
-            out.extend_from_slice(&crc32fast::hash(plain).to_le_bytes());
-            out.extend_from_slice(&(raw.len() as u32).to_le_bytes());
-            out.extend_from_slice(&(plain.len() as u32).to_le_bytes());
+            out.extend_from_slice(&(if descriptor { 0 } else { crc32fast::hash(plain) }).to_le_bytes());
+            let (cs, us) = if zip64 { (0xFFFF_FFFFu32, 0xFFFF_FFFFu32) } else if descriptor { (0, 0) } else { (raw.len() as u32, plain.len() as u32) };
+            out.extend_from_slice(&cs.to_le_bytes());
+            out.extend_from_slice(&us.to_le_bytes());
             out.extend_from_slice(&name_len.to_le_bytes());
-            out.extend_from_slice(&extra_len.to_le_bytes());
+            let extra_total = *extra_len + if zip64 { 20 } else { 0 };
+            out.extend_from_slice(&extra_total.to_le_bytes());
             out.extend_from_slice(&printable(rng, *name_len as usize));
+            if zip64 {
+                out.extend_from_slice(&1u16.to_le_bytes());
+                out.extend_from_slice(&16u16.to_le_bytes());
+                out.extend_from_slice(&(plain.len() as u64).to_le_bytes());
+                out.extend_from_slice(&(raw.len() as u64).to_le_bytes());
+            }
             let start = out.len();
             out.resize(start + *extra_len as usize, 0);
             rng.fill(&mut out[start..]);
             out.extend_from_slice(raw);
+            if descriptor {
+                out.extend_from_slice(&0x08074b50u32.to_le_bytes());
+                out.extend_from_slice(&crc32fast::hash(plain).to_le_bytes());
+                out.extend_from_slice(&(raw.len() as u32).to_le_bytes());
+                out.extend_from_slice(&(plain.len() as u32).to_le_bytes());
+            }
         }
         Wrapper::Png(chunks) => {
             let mut z = Vec::with_capacity(raw.len() + 6);
@@ -1013,4 +1044,55 @@ pub fn gen_png_edge_file(rng: &mut Rng) -> Vec<u8> {
 
 fn rng_range(rng: &mut Rng, lo: u64, hi: u64) -> usize {
     rng.range(lo, hi) as usize
+}
+
+pub fn zlib_flushy(input: &[u8], level: i32, interval: usize, flushed: usize) -> Vec<u8> {
+    use libz_sys::*;
+    unsafe {
+        let mut zs = std::mem::MaybeUninit::<z_stream>::uninit();
+        std::ptr::write_bytes(zs.as_mut_ptr() as *mut u8, 0, std::mem::size_of::<z_stream>());
+        let z = zs.as_mut_ptr();
+        let rc = deflateInit2_(z, level, Z_DEFLATED, -15, 8, Z_DEFAULT_STRATEGY, zlibVersion(), std::mem::size_of::<z_stream>() as i32);
+        assert_eq!(rc, Z_OK);
+        let mut out: Vec<u8> = vec![0; input.len() * 2 + (flushed.min(input.len()) / interval.max(1) + 4) * 16 + 4096];
+        (*z).next_out = out.as_mut_ptr();
+        (*z).avail_out = out.len() as u32;
+        let mut pos = 0usize;
+        let limit = flushed.min(input.len());
+        while pos < limit {
+            let n = interval.max(1).min(limit - pos);
+            (*z).next_in = input.as_ptr().add(pos) as *mut _;
+            (*z).avail_in = n as u32;
+            let rc = deflate(z, Z_SYNC_FLUSH);
+            assert!(rc == Z_OK || rc == Z_BUF_ERROR, "flushy deflate rc={}", rc);
+            pos += n;
+        }
+        (*z).next_in = input.as_ptr().add(pos) as *mut _;
+        (*z).avail_in = (input.len() - pos) as u32;
+        let rc = deflate(z, Z_FINISH);
+        assert_eq!(rc, Z_STREAM_END, "flushy finish");
+        out.truncate((*z).total_out as usize);
+        deflateEnd(z);
+        out
+    }
+}
+
+/// literal-only stream whose first (non-final) block has 65536 + m tokens, m one of the block
+/// sizes the estimator emits (token counts that only differ in the bits above 16)
+pub fn gen_wraparound_block_stream(rng: &mut Rng) -> (Compressor, Vec<u8>, Vec<u8>) {
+    let m = *rng.pick(&[16386usize, 127, 255, 511, 1023, 2047, 4095, 8191, 16383, 32767]);
+    let first = 65536 + m;
+    let n = first + rng.range(200, 6000) as usize;
+    let mut plain = vec![0u8; n];
+    rng.fill(&mut plain);
+    for b in plain.iter_mut() {
+        *b = b'a' + (*b % 26);
+    }
+    let mut p = crate::lz77::Lz77Params::random(rng);
+    p.literals_only = true;
+    p.block_tokens = first;
+    p.stored_every = 0;
+    p.empty_run = 0;
+    let raw = crate::lz77::encode(&plain, &p);
+    (Compressor::Lz77(p), plain, raw)
 }
